@@ -14,6 +14,8 @@
 //!    (`E.subscriptionSingleRoot.conditional`);
 //!  * a fragment whose type condition equals the parent type can always be spread (graphql-js
 //!    does the same; the spec text would reject it for an interface without implementers).
+//! apollo's own `@defer` rules are not modelled: a document that applies `@defer` / `@stream` is
+//! `Unspecified` unless it violates some other rule.
 //!
 //! The schema is assumed to be valid.
 
@@ -351,6 +353,7 @@ impl<'a> V<'a> {
                 continue;
             }
             if let Some(d) = &v.default {
+                self.object_fields_unique(d);
                 let mut sc = Scope::default();
                 self.value(d, &v.ty, false, Pos::Top, &mut sc);
                 if !sc.usages.is_empty() {
@@ -452,13 +455,31 @@ impl<'a> V<'a> {
         }
     }
 
-    /// 5.4.2 Argument Uniqueness
+    /// 5.4.2 Argument Uniqueness; 5.6.3 Input Object Field Uniqueness ("for each input object
+    /// value in the document": every object literal, whatever type is expected there)
     fn arg_unique(&mut self, args: &[(String, Value)]) {
         let mut seen: BTreeSet<&str> = BTreeSet::new();
-        for (n, _) in args {
+        for (n, v) in args {
             if !seen.insert(n) {
                 self.code("E.argUnique");
             }
+            self.object_fields_unique(v);
+        }
+    }
+
+    fn object_fields_unique(&mut self, v: &Value) {
+        match v {
+            Value::List(l) => l.iter().for_each(|x| self.object_fields_unique(x)),
+            Value::Object(o) => {
+                let mut seen: BTreeSet<&str> = BTreeSet::new();
+                for (k, x) in o {
+                    if !seen.insert(k) {
+                        self.code("E.inputFieldUnique");
+                    }
+                    self.object_fields_unique(x);
+                }
+            }
+            _ => {}
         }
     }
 
@@ -489,6 +510,11 @@ impl<'a> V<'a> {
         let mut seen: BTreeSet<&str> = BTreeSet::new();
         for d in ds {
             self.arg_unique(&d.args);
+            if d.name == "defer" || d.name == "stream" {
+                // apollo applies the rules of the incremental-delivery proposal to @defer
+                // (documented difference); they are not modelled here
+                self.unspecified("@defer / @stream");
+            }
             let Some(def) = self.s.directive(&d.name).cloned() else {
                 // 5.7.1 Directives Are Defined
                 self.code("E.dirKnown");
@@ -530,6 +556,12 @@ impl<'a> V<'a> {
             Type::List(item) => match v {
                 Value::List(items) => {
                     for it in items {
+                        if item.is_list() && !matches!(it, Value::List(_) | Value::Null | Value::Var(_)) {
+                            // `[1, 2]` for `[[Int]]`: the October 2021 table of 3.11 says "Error:
+                            // Incorrect item value", its prose and later editions coerce each item
+                            // to a list of one (as graphql-js does)
+                            self.unspecified("non-list item inside a list literal whose item type is a list");
+                        }
                         self.value(it, item, false, Pos::ListItem, sc);
                     }
                 }
@@ -594,12 +626,7 @@ impl<'a> V<'a> {
             TypeKind::InputObject => match v {
                 Value::Object(fields) => {
                     let td = td.clone();
-                    let mut seen: BTreeSet<&str> = BTreeSet::new();
                     for (fname, fv) in fields {
-                        // 5.6.3 Input Object Field Uniqueness
-                        if !seen.insert(fname) {
-                            self.code("E.inputFieldUnique");
-                        }
                         match td.input_fields.iter().find(|d| d.name == *fname) {
                             // 5.6.2 Input Object Field Names
                             None => {
@@ -1236,7 +1263,15 @@ directive @many repeatable on FIELD
         assert_eq!(one("{ f(i: {req: null}, e: A) }").codes(), vec!["E.inputFieldRequired", "E.value.null->NonNull"]);
         assert_eq!(one("{ f(i: {req: 1, d: null}, e: A) }").codes(), vec!["E.value.null->NonNull"]);
         assert_eq!(one("{ f(s: {a: [1, \"x\", E]}, e: A) g: f(s: 1.5, e: []) h: f(s: X, e: A) }"), Verdict::Valid);
-        assert_eq!(one("{ f(l: 1, e: A) a: f(l: [1], e: A) b: f(l: [[1], null, 2], e: A) }"), Verdict::Valid);
+        assert_eq!(one("{ f(l: 1, e: A) b: f(l: [[1], null, [2, null]], e: A) }"), Verdict::Valid);
+        // October 2021 table vs prose / graphql-js: not compared
+        assert!(matches!(one("{ f(l: [1], e: A) }"), Verdict::Unspecified(_)));
+        assert!(matches!(one("{ f(l: [[1], 2], e: A) }"), Verdict::Unspecified(_)));
+        // duplicate fields in any object literal, typed or not
+        assert_eq!(one("{ f(s: {a: 1, a: 2}, e: A) }").codes(), vec!["E.inputFieldUnique"]);
+        assert_eq!(one("{ f(s: [{a: {b: 1, b: 1}}], e: A) }").codes(), vec!["E.inputFieldUnique"]);
+        assert_eq!(one("query($v: In = {req: 1, req: 1}) { f(i: $v, e: A) }").codes(), vec!["E.inputFieldUnique"]);
+        assert_eq!(one("{ f(e: A) @skip(if: true, zz: {a: 1, a: 1}) }").codes(), vec!["E.argKnown", "E.inputFieldUnique"]);
         assert_eq!(one("{ f(l: [[[1]]], e: A) }").codes(), vec!["E.value.list->Int"]);
         assert_eq!(one("{ f(e: [A, null]) }").codes(), vec!["E.value.null->NonNull"]);
         assert_eq!(one("{ f(e: null) }").codes(), vec!["E.argRequired", "E.value.null->NonNull"]);
